@@ -184,7 +184,7 @@ Definition set_cur (e : env) (s : step) : env :=
 
 Inductive retval : Type := RBool (b : bool) | RProducts (a b : side).
 
-Inductive outcome : Type :=
+Inductive fres : Type :=
 | ONormal (st : fstate)
 | OBreak (st : fstate)
 | ORaise (e : exn) (st : fstate)
@@ -201,14 +201,14 @@ Definition catches (c : catch) (e : exn) : bool :=
 Definition img_of (e : env) (i : img) : side := match i with PLeft => e_pl e | PRight => e_pr e end.
 
 (* a statement-call: the value is dropped, an exception propagates *)
-Definition as_call (o : outcome) : outcome :=
+Definition as_call (o : fres) : fres :=
   match o with
   | ONormal st | OReturn _ st => ONormal st
   | ORaise x st => ORaise x st
   | OBreak _ | OStuck => OStuck
   end.
 
-Fixpoint for_steps (f : step -> fstate -> outcome) (p : list step) (st : fstate) : outcome :=
+Fixpoint for_steps (f : step -> fstate -> fres) (p : list step) (st : fstate) : fres :=
   match p with
   | [] => ONormal st
   | s :: r =>
@@ -219,7 +219,7 @@ Fixpoint for_steps (f : step -> fstate -> outcome) (p : list step) (st : fstate)
     end
   end.
 
-Fixpoint for_n (n : nat) (f : fstate -> outcome) (st : fstate) : outcome :=
+Fixpoint for_n (n : nat) (f : fstate -> fres) (st : fstate) : fres :=
   match n with
   | O => ONormal st
   | S n' =>
@@ -230,8 +230,8 @@ Fixpoint for_n (n : nat) (f : fstate -> outcome) (st : fstate) : outcome :=
     end
   end.
 
-Definition block (ex : stmt -> env -> fstate -> outcome) : list stmt -> env -> fstate -> outcome :=
-  fix go (l : list stmt) (e : env) (st : fstate) : outcome :=
+Definition block (ex : stmt -> env -> fstate -> fres) : list stmt -> env -> fstate -> fres :=
+  fix go (l : list stmt) (e : env) (st : fstate) : fres :=
     match l with
     | [] => ONormal st
     | s :: r => match ex s e st with ONormal st' => go r e st' | o => o end
@@ -299,7 +299,7 @@ Section Exec.
        <step>_run         is recorded in the trace, left then right iff right_disp_map is set;
                           validation_run needs the right disparity map (KeyError without it);
                           run_multiscale decrements current_scale *)
-  Definition callback (ph : phase) (k : kind) (s : step) (st : fstate) : outcome :=
+  Definition callback (ph : phase) (k : kind) (s : step) (st : fstate) : fres :=
     let m := f_m st in
     match ph with
     | PCheck =>
@@ -318,11 +318,11 @@ Section Exec.
   Section WithCalls.
     (* the `conditions` callback of the conditional transitions (is_not_last_scale) *)
     Variable cond : fstate -> bool.
-    Variable calls : callee -> env -> fstate -> outcome.
+    Variable calls : callee -> env -> fstate -> fres.
 
     (* Machine.trigger(name, ...): unknown event -> AttributeError; no transition from the current state
        -> MachineError; every condition false -> returns False; else the state changes, then the callback *)
-    Definition trigger (ph : option phase) (k : option kind) (s : step) (st : fstate) : outcome :=
+    Definition trigger (ph : option phase) (k : option kind) (s : step) (st : fstate) : fres :=
       match ph, k with
       | Some ph, Some k =>
         let m := f_m st in
@@ -341,7 +341,7 @@ Section Exec.
       | _ => e
       end.
 
-    Fixpoint exec_stmt (s : stmt) (e : env) (st : fstate) {struct s} : outcome :=
+    Fixpoint exec_stmt (s : stmt) (e : env) (st : fstate) {struct s} : fres :=
       let m := f_m st in
       match s with
       | SSetLeft i => ONormal (mkF m (img_of e i) (f_right st) (f_scales st) (f_trace st))
@@ -377,7 +377,7 @@ Section Exec.
       end.
   End WithCalls.
 
-  Definition no_calls : callee -> env -> fstate -> outcome := fun _ _ _ => OStuck.
+  Definition no_calls : callee -> env -> fstate -> fres := fun _ _ _ => OStuck.
   Definition env0 : env := mkEnv [] 0 SL SR false None.
 
   Section WithFlows.
@@ -392,7 +392,7 @@ Section Exec.
 
     (* PandoraMachine.check_conf; [fuel] bounds the depth of the recursive calls (a well-formed flow
        reaches depth 2) *)
-    Fixpoint call_check (fuel : nat) (e : env) (st : fstate) : outcome :=
+    Fixpoint call_check (fuel : nat) (e : env) (st : fstate) : fres :=
       match fuel with
       | O => OStuck
       | S f =>
@@ -401,7 +401,7 @@ Section Exec.
               (fl_check_conf fl) e st
       end.
 
-    Definition run_calls (c : callee) (e : env) (st : fstate) : outcome :=
+    Definition run_calls (c : callee) (e : env) (st : fstate) : fres :=
       match c with
       | FRunPrepare => block (exec_stmt sem_cond no_calls) (fl_run_prepare fl) e st
       | FRun => block (exec_stmt sem_cond no_calls) (fl_machine_run fl) e st
@@ -410,11 +410,11 @@ Section Exec.
       end.
 
     (* machine.check_conf(cfg, img_left, img_right) on a machine object in state m *)
-    Definition sem_check (fuel : nat) (st : fstate) (p : list step) : outcome :=
+    Definition sem_check (fuel : nat) (st : fstate) (p : list step) : fres :=
       call_check fuel (mkEnv p 0 SL SR false None) st.
 
     (* pandora.run(machine, img_left, img_right, cfg) where read_multiscale_params(cfg) gives n scales *)
-    Definition sem_run (st : fstate) (p : list step) (n : Z) : outcome :=
+    Definition sem_run (st : fstate) (p : list step) (n : Z) : fres :=
       block (exec_stmt sem_cond run_calls) (fl_pandora_run fl) (mkEnv p n SL SR false None) st.
   End WithFlows.
 End Exec.
